@@ -38,12 +38,19 @@ impl PathComponent {
     }
 }
 
+/// jq's reserved words. `.and`, `.then`, ... are not read as field accesses by
+/// `jq::parse` (`.and[1]` is `. and [1]`), so such keys need bracket notation.
+const JQ_KEYWORDS: &[&str] = &[
+    "and", "or", "not", "if", "then", "elif", "else", "end", "as", "def", "reduce", "foreach",
+    "try", "catch", "label", "import", "include", "__loc__",
+];
+
 /// Check if a key can use dot notation in jq.
 ///
-/// Keys must start with a letter or underscore, and contain only
-/// alphanumeric characters and underscores.
+/// Keys must start with a letter or underscore, contain only
+/// alphanumeric characters and underscores, and not be a jq keyword.
 fn can_use_dot_notation(key: &str) -> bool {
-    if key.is_empty() {
+    if key.is_empty() || JQ_KEYWORDS.contains(&key) {
         return false;
     }
 
